@@ -18,6 +18,14 @@ def run(ck: Check, prog: Program) -> None:
     ck.assume('tracer callbacks themselves do not raise (outside the property)')
     ck.not_decided.append('tracers that raise')
     interp = tracer_interp(prog)
+    # the id check is part of the attempt: it runs as _send's validator, inside the traced region
+    from .cfacts import relate_inside_send_problems
+    n_sites, rp = relate_inside_send_problems(prog)
+    ck.ob('DECOR-ORDER', f'{n_sites} send sites: responses are related to their requests inside the traced _send (validator=self._relate), nowhere else', not rp,
+          sample={'send_sites': n_sites})
+    ck.require('DECOR-ORDER', 'call sites of _send in the client module', n_sites, 4)
+    for f_, line, construct, msg in rp:
+        ck.finding('DECOR-ORDER', f_.qualname, construct, f_.module.rel, line, msg)
     for cr in crs:
         half = cr.cls.name
         ck.functions |= {cr.traced_wrapper.qualname, cr.retried_wrapper.qualname, cr.send_impl.qualname}
@@ -58,6 +66,15 @@ def run(ck: Check, prog: Program) -> None:
 
 
 MUTANTS = [
+    dict(name='batch-related-after-the-traced-send', file='pjrpc/client/client.py', nth=0,
+         find='                validator=self._relate,\n', replace='                validator=lambda a, b: None,\n', expect='DECOR-ORDER'),
+    dict(name='completion-report-inside-the-guarded-region', file='pjrpc/client/client.py', nth=0,
+         find='            for tracer in self._tracers:\n                tracer.on_request_end(trace_ctx, request, response)\n\n            return response\n',
+         replace='            return response\n',
+         also=[dict(file='pjrpc/client/client.py', nth=0, find='                response = method(self, request, _trace_ctx=trace_ctx, **kwargs)\n',
+                    replace='                response = method(self, request, _trace_ctx=trace_ctx, **kwargs)\n'
+                            '                for tracer in self._tracers:\n                    tracer.on_request_end(trace_ctx, request, response)\n')],
+         expect='TRACE-TYPESTATE'),
     dict(name='except-Exception', file='pjrpc/client/client.py', nth=1, find='            except BaseException as e:', replace='            except Exception as e:',
          expect='TRACE-TYPESTATE'),
     dict(name='end-in-finally', file='pjrpc/client/client.py', nth=0,
